@@ -34,7 +34,9 @@ Record obs := mkObs {
   o_after : list Z;
   o_events : list (list Z * list Z);
   o_ret : option Z;
-  o_copy_validates : option bool
+  o_copy_validates : option bool;
+  o_observed : option (list (list Z * list Z))   (* implementation only: the (removed, added) of the SetChangeEvents an
+                                                    observe("s:items") handler received during the operation *)
 }.
 
 Section WithValidator.
@@ -50,8 +52,8 @@ Section WithValidator.
                 end
     end.
 
-  Definition ok (s : list Z) (evs : list (list Z * list Z)) : obs := mkObs Ok s evs None None.
-  Definition raise (e : exn) (s : list Z) : obs := mkObs (Raise e) s [] None None.
+  Definition ok (s : list Z) (evs : list (list Z * list Z)) : obs := mkObs Ok s evs None None None.
+  Definition raise (e : exn) (s : list Z) : obs := mkObs (Raise e) s [] None None None.
 
   (* notify only when something was removed (the `if len(removed) > 0` idiom) *)
   Definition removed_only (old new : list Z) : obs :=
@@ -81,7 +83,7 @@ Section WithValidator.
         | [] => raise KeyError s
         | h :: _ =>
             let x := match hint with Some y => if mem y s then y else h | None => h end in
-            mkObs Ok (remove1 x s) [([x], [])] (Some x) None
+            mkObs Ok (remove1 x s) [([x], [])] (Some x) None None
         end
     | Update args =>                             (* update, several iterables *)
         match vld_all (concat args) with
@@ -126,7 +128,7 @@ Section WithValidator.
             ok (union (diff s removed) added)
                (if is_empty removed && is_empty added then [] else [(removed, added)])
         end
-    | Copy _ => mkObs Ok s [] None (Some true)   (* equal contents, validator kept, no notification *)
+    | Copy _ => mkObs Ok s [] None (Some true) None   (* equal contents, validator kept, no notification *)
     end.
 
   Fixpoint run (s : list Z) (ops : list op) : list (op * obs) :=
